@@ -21,7 +21,7 @@ def ingest(src):
         demo = open(os.path.join(src, "demo.py")).read()
         # the demo refers to the author's worktree; aim it at the scratch copy
         import re
-        demo2 = re.sub(r"/tmp/agents/C\d\d", wt, demo)
+        demo2 = re.sub(r"/tmp/agents\d*/C\d\d", wt, demo)
         os.makedirs(os.path.join(wt, "seeded_out", sid), exist_ok=True)
         dpath = os.path.join(wt, "seeded_out", sid, "demo.py")
         open(dpath, "w").write(demo2)
